@@ -11,6 +11,7 @@ from hashlib import sha1
 import json
 import logging
 import os
+import threading
 
 import six
 from six.moves.urllib.parse import urlparse
@@ -57,6 +58,11 @@ class WebSocket(object):
             self.closed = False
             self.sent_close_time = None
             self.compression = None
+            # Held while a frame is prepared and written, so that frames
+            # reach the socket in the order they were compressed, and
+            # nothing can be sent between a close frame and the closing
+            # flag being set.
+            self.send_lock = threading.RLock()
 
     def __init__(self,
                  url,
@@ -250,13 +256,14 @@ class WebSocket(object):
             raise TypeError('reason argument must be str or bytes')
         if len(Frame.build_close_payload(code, reason)) > 125:
             raise ValueError('close code + reason should be <= 125 bytes')
-        if self.is_closed:
-            log.debug('%r already closed', self)
-        else:
-            if not self.is_closing:
-                self._send_close(code, reason)
-                self.state.closing = True
-                self.state.sent_close_time = self.session.session_time
+        with self.state.send_lock:
+            if self.is_closed:
+                log.debug('%r already closed', self)
+            else:
+                if not self.is_closing:
+                    self._send_close(code, reason)
+                    self.state.closing = True
+                    self.state.sent_close_time = self.session.session_time
 
     def _on_close(self, message):
         """Close logic generator."""
@@ -449,7 +456,8 @@ class WebSocket(object):
             raise TypeError('data argument must be bytes')
         if len(data) > 125:
             raise ValueError('ping data should be <= 125 bytes')
-        self.session.send(Opcode.PING, data)
+        with self.state.send_lock:
+            self.session.send(Opcode.PING, data)
 
     def send_pong(self, data):
         """Send a pong packet.
@@ -468,7 +476,8 @@ class WebSocket(object):
             raise TypeError('data argument must be bytes')
         if len(data) > 125:
             raise ValueError('pong data should be <= 125 bytes')
-        self.session.send(Opcode.PONG, data)
+        with self.state.send_lock:
+            self.session.send(Opcode.PONG, data)
 
     def send_binary(self, data, compress=True):
         """Send a binary message.
@@ -481,11 +490,12 @@ class WebSocket(object):
         """
         if not isinstance(data, bytes):
             raise TypeError('data argument must be bytes')
-        if compress and self.state.compression:
-            _payload = self.state.compression.compress(data)
-            self.session.send_compressed(Opcode.BINARY, _payload)
-        else:
-            self.session.send(Opcode.BINARY, data)
+        with self.state.send_lock:
+            if compress and self.state.compression:
+                _payload = self.state.compression.compress(data)
+                self.session.send_compressed(Opcode.BINARY, _payload)
+            else:
+                self.session.send(Opcode.BINARY, data)
 
     def send_json(self, _obj=Ellipsis, **kwargs):
         """Encode an object as JSON and send a text message.
@@ -525,11 +535,12 @@ class WebSocket(object):
         if not isinstance(text, six.text_type):
             raise TypeError('text argument must not be bytes')
         payload = text.encode('utf-8')
-        if compress and self.state.compression:
-            _payload = self.state.compression.compress(payload)
-            self.session.send_compressed(Opcode.TEXT, _payload)
-        else:
-            self.session.send(Opcode.TEXT, payload)
+        with self.state.send_lock:
+            if compress and self.state.compression:
+                _payload = self.state.compression.compress(payload)
+                self.session.send_compressed(Opcode.TEXT, _payload)
+            else:
+                self.session.send(Opcode.TEXT, payload)
 
     def _send_close(self, code, reason):
         """Send a close frame."""
